@@ -37,6 +37,16 @@ abbrev M (ω α : Type) := ω → Res α × ω
   | (.thrown e, w') => (.thrown e, w')
   | (.halted, w') => (.halted, w')
 
+/-- `catch(H const &)` catches an exception of class `c`: `std::system_error` is a `std::runtime_error` -/
+def ExnClass.isA (c h : ExnClass) : Bool :=
+  c == h || (c == .system_error && h == .runtime_error)
+
+/-- `try body catch(H const &e) handler` -/
+@[inline] def M.tryCatch {ω α : Type} (h : ExnClass) (body : M ω α) (handler : Thrown → M ω α) : M ω α := fun w =>
+  match body w with
+  | (.thrown e, w') => if e.cls.isA h then handler e w' else (.thrown e, w')
+  | r => r
+
 /-- the iteration budget a function starts its loops with: its own `fuel` (a marker, so that proofs can
 generalise the loop counter without touching the `fuel` handed on to callees) -/
 def loopFuel (fuel : Nat) : Nat := fuel
@@ -66,5 +76,39 @@ structure TodoWorld (ω : Type) extends World ω where
   runTask : M ω Unit
   /-- `todos.empty()` -/
   todosEmpty : M ω Bool
+
+/-- the abstract send queue, promise, buffer and socket interface of `SocketAsyncImpl::DriverSend` / `DriverSendTo`
+(`auto &&[promise, buffer(, addr)] = q.front()` names the fields of the front element) -/
+structure QueueWorld (ω : Type) where
+  /-- `q.size()` -/
+  qSize : M ω Int
+  /-- `q.empty()` -/
+  qEmpty : M ω Bool
+  /-- `q.pop()`: the front element is destroyed (its buffer goes back to the pool) -/
+  qPop : M ω Unit
+  /-- `buffer->size()` of the front element -/
+  bufferSize : M ω Int
+  /-- `buffer->erase(0, n)` of the front element -/
+  bufferErase : Int → M ω Unit
+  /-- `promise.set_value()` of the front element -/
+  promiseSetValue : M ω Unit
+  /-- `promise.set_exception(std::make_exception_ptr(e))` of the front element -/
+  promiseSetException : M ω Unit
+  /-- `buff->sock->SendSome(buffer->data(), len)`: the socket's non-blocking send of the front buffer; may throw -/
+  sockSendSome : Int → M ω Int
+  /-- `buff->sock->SendTo(buffer->data(), len, addr->ForUdp())`; may throw -/
+  sockSendTo : Int → M ω Int
+  /-- `buff->sock->DriverPending()` (TLS handshake hook) -/
+  sockDriverPending : M ω Unit
+  /-- `q.emplace(std::move(promise), std::forward<Args>(args)...)`: the new element goes to the back -/
+  qEmplace : M ω Unit
+  /-- `std::lock_guard<std::mutex> lock(sendQMtx)` -/
+  lock : M ω Unit
+  /-- the guard's destructor on a normal exit of the function -/
+  unlock : M ω Unit
+  /-- `driver.lock()`: is the driver still alive -/
+  driverLock : M ω Bool
+  /-- `ptr->AsyncWantSend(buff->sock->fd)` -/
+  driverAsyncWantSend : M ω Unit
 
 end SockModel.Gen
